@@ -119,6 +119,17 @@ class Closure:
 _GEN: Dict[int, bool] = {}
 
 
+def _walk_own(fn: ast.AST):
+    """nodes of a function body excluding nested function/lambda/class bodies"""
+    stack = list(ast.iter_child_nodes(fn))
+    while stack:
+        n = stack.pop()
+        yield n
+        if isinstance(n, (ast.FunctionDef, ast.AsyncFunctionDef, ast.Lambda, ast.ClassDef)):
+            continue
+        stack.extend(ast.iter_child_nodes(n))
+
+
 class FunctionValue:
     """a function of the analysed module, interpreted on abstract arguments"""
 
@@ -167,10 +178,11 @@ class FunctionValue:
                 raise Undecided(f"missing argument {p} for {fn.name}")
         isgen = _GEN.get(id(fn))
         if isgen is None:
-            isgen = any(isinstance(st, (ast.Yield, ast.YieldFrom)) for st in ast.walk(fn))
+            isgen = any(isinstance(st, (ast.Yield, ast.YieldFrom)) for st in _walk_own(fn))
             _GEN[id(fn)] = isgen
         if isgen:
-            raise Undecided(f"generator function {fn.name}")
+            # generator functions are evaluated eagerly: the yielded values are collected into a list
+            env["__yields__"] = []
         self.ev.depth += 1
         if self.ev.depth > 40:
             raise Undecided("recursion depth")
@@ -178,7 +190,21 @@ class FunctionValue:
             r = self.ev.run(fn.body, env)
         finally:
             self.ev.depth -= 1
+        if isgen:
+            return env["__yields__"]
         return None if r is FELL else r
+
+
+class _Deque(list):
+    """collections.deque with the few methods the generator uses"""
+
+    def popleft(self) -> Any:
+        if not self:
+            raise Raised("IndexError(pop from an empty deque)")
+        return self.pop(0)
+
+    def appendleft(self, x: Any) -> None:
+        self.insert(0, x)
 
 
 class _Closure2:
@@ -414,6 +440,18 @@ class Evaluator:
             env[t.id] = v
         elif isinstance(t, (ast.Tuple, ast.List)):
             vs = self.iterate(v)
+            stars = [i for i, e in enumerate(t.elts) if isinstance(e, ast.Starred)]
+            if len(stars) == 1:
+                i = stars[0]
+                after = len(t.elts) - i - 1
+                if len(vs) < len(t.elts) - 1:
+                    raise Raised("ValueError(not enough values to unpack)")
+                for a, b in zip(t.elts[:i], vs[:i]):
+                    self.bind(a, b, env)
+                self.bind(t.elts[i].value, list(vs[i:len(vs) - after]), env)
+                for a, b in zip(t.elts[i + 1:], vs[len(vs) - after:] if after else []):
+                    self.bind(a, b, env)
+                return
             if len(vs) != len(t.elts):
                 raise Raised("ValueError(wrong number of values to unpack)")
             for a, b in zip(t.elts, vs):
@@ -486,13 +524,34 @@ class Evaluator:
         if isinstance(op, ast.Add) and isinstance(a, (list, tuple, str)) and type(a) is type(b):
             return a + b
         num = lambda x: isinstance(x, int) and not isinstance(x, bool)  # noqa: E731
+        if (isinstance(a, float) or isinstance(b, float)) and all(isinstance(x, (int, float)) and not isinstance(x, bool) for x in (a, b)):
+            try:
+                return {ast.Add: lambda: a + b, ast.Sub: lambda: a - b, ast.Mult: lambda: a * b, ast.Div: lambda: a / b}[type(op)]()
+            except KeyError:
+                raise Undecided("float operation")
+            except ZeroDivisionError:
+                raise Raised("ZeroDivisionError(float division by zero)")
         if num(a) and num(b):
+            if isinstance(op, ast.BitXor):
+                return a ^ b
+            if isinstance(op, ast.BitAnd):
+                return a & b
+            if isinstance(op, ast.BitOr):
+                return a | b
+            if isinstance(op, ast.RShift) and b >= 0:
+                return a >> b
             if isinstance(op, ast.Add):
                 return a + b
             if isinstance(op, ast.Sub):
                 return a - b
             if isinstance(op, ast.Mult):
                 return a * b
+            if isinstance(op, ast.Div):
+                if b == 0:
+                    raise Raised("ZeroDivisionError(division by zero)")
+                return a / b
+            if isinstance(op, (ast.FloorDiv, ast.Mod)) and b == 0:
+                raise Raised("ZeroDivisionError(integer division or modulo by zero)")
             if isinstance(op, ast.FloorDiv) and b != 0:
                 return a // b
             if isinstance(op, ast.Mod) and b != 0:
@@ -558,6 +617,9 @@ class Evaluator:
         if not (num(a) and num(b)) and "__compare__" in self.funcs:
             return self.funcs["__compare__"](op, a, b)
         _cmp_guard(a, b)
+        isn = lambda x: isinstance(x, (int, float)) and not isinstance(x, bool)  # noqa: E731
+        if isn(a) and isn(b) and (isinstance(a, float) or isinstance(b, float)):
+            return {ast.Lt: a < b, ast.LtE: a <= b, ast.Gt: a > b, ast.GtE: a >= b}[type(op)]
         if num(a) and num(b):
             if isinstance(op, ast.Lt):
                 return a < b
@@ -715,6 +777,12 @@ class Evaluator:
         elif isinstance(st, ast.Expr):
             if isinstance(st.value, ast.Constant):
                 return
+            if isinstance(st.value, ast.Yield):
+                env["__yields__"].append(None if st.value.value is None else self.eval(st.value.value, env))
+                return
+            if isinstance(st.value, ast.YieldFrom):
+                env["__yields__"].extend(self.iterate(self.eval(st.value.value, env)))
+                return
             if isinstance(st.value, ast.Call) and isinstance(st.value.func, ast.Attribute):
                 m = st.value.func.attr
                 if m in ("append", "extend"):
@@ -803,10 +871,11 @@ _ITER_BUILTINS = {"enumerate", "zip", "map", "sum", "all", "any", "reversed", "m
 _SAFE_METHODS = {
     "str": ("format", "join", "split", "strip", "startswith", "endswith", "lower", "upper", "isdigit", "index",
             "find", "replace", "encode", "rstrip", "lstrip", "splitlines"),
-    "list": ("append", "extend", "index", "count", "copy", "pop", "insert", "reverse", "sort"),
+    "list": ("append", "extend", "index", "count", "copy", "pop", "insert", "reverse", "sort", "remove"),
+    "_Deque": ("append", "extend", "popleft", "appendleft", "pop"),
     "tuple": ("index", "count"),
     "dict": ("get", "items", "keys", "values", "setdefault", "copy"),
-    "set": ("add", "copy"),
+    "set": ("add", "copy", "discard", "remove", "update"),
 }
 
 
@@ -901,6 +970,11 @@ BUILTINS: Dict[str, Callable[..., Any]] = {
     "ord": _strfn(ord),
     "chr": _strfn(chr),
     "abs": abs,
+    "float": lambda x: float(x) if isinstance(x, (int, float)) and not isinstance(x, bool) else (_ for _ in ()).throw(Undecided("float()")),
+    "math.exp": lambda x: __import__("math").exp(x) if isinstance(x, (int, float)) else (_ for _ in ()).throw(Undecided("exp")),
+    "print": lambda *a, **k: None,
+    "deque": lambda *a: _Deque(*a),
+    "collections.deque": lambda *a: _Deque(*a),
     "deepcopy": lambda x: __import__("copy").deepcopy(x) if _plain(x) or isinstance(x, (list, tuple, dict)) else (_ for _ in ()).throw(Undecided("deepcopy")),
     "copy.deepcopy": lambda x: __import__("copy").deepcopy(x),
     "copy.copy": lambda x: __import__("copy").copy(x),
